@@ -275,8 +275,13 @@ func modelOf(base string, id int64) interface{} {
 }
 
 // build performs every call of the chain except the finisher.
-func (c *Chain) build(root *gorm.DB) *gorm.DB {
-	tx := root
+func (c *Chain) build(root *gorm.DB) *gorm.DB { return c.buildFrom(root, root) }
+
+// buildFrom starts the chain on start (which may be a reusable handle that
+// already carries state); nested pieces (sub-queries, grouped conditions,
+// db.Raw arguments) are built from the clean handle root.
+func (c *Chain) buildFrom(start, root *gorm.DB) *gorm.DB {
+	tx := start
 	if c.SkipHooks {
 		tx = tx.Session(&gorm.Session{SkipHooks: true})
 	}
@@ -407,8 +412,11 @@ func (c *Chain) destOne() interface{} {
 // statement for every call) and returns the *gorm.DB the finisher returned.
 // Every Go value handed to gorm is built fresh, so a chain can be applied any
 // number of times.
-func (c *Chain) Apply(root *gorm.DB) *gorm.DB {
-	tx := c.build(root)
+func (c *Chain) Apply(root *gorm.DB) *gorm.DB { return c.ApplyFrom(root, root) }
+
+// ApplyFrom performs the chain starting on the handle start, see buildFrom.
+func (c *Chain) ApplyFrom(start, root *gorm.DB) *gorm.DB {
+	tx := c.buildFrom(start, root)
 	var inl []interface{}
 	if c.Inline != nil {
 		q, a := c.Inline.call(root)
